@@ -25,6 +25,14 @@ open Ruma.Push (Text PJ Scalar Cond CmpOp MemberCountIs Ctx PowerLevelsCtx CondR
   Ruleset AnyRule)
 open Ruma.Spec.Glob (wordMatchDecide valueDecide)
 
+def keyRoomId : Text := "room_id".toList
+def keyContentBody : Text := "content.body".toList
+def keySender : Text := "sender".toList
+def keyRoom : Text := "room".toList
+def ruleRoomNotif : Text := ".m.rule.roomnotif".toList
+def ruleContainsDisplayName : Text := ".m.rule.contains_display_name".toList
+def ruleContainsUserName : Text := ".m.rule.contains_user_name".toList
+
 /-- A key as it is written inside a property path. -/
 def escape (k : Text) : Text :=
   k.flatMap fun c => if c = '.' ∨ c = '\\' then ['\\', c] else [c]
@@ -100,7 +108,7 @@ def levelOf (pl : PowerLevelsCtx) (u : Text) : Int :=
 
 /-- The level required for a notification key; only `room` is defined by the spec. -/
 def requiredLevel (pl : PowerLevelsCtx) (key : Text) : Option Int :=
-  if key = "room".toList then some pl.room else none
+  if key = keyRoom then some pl.room else none
 
 structure Params where
   /-- case folding (`str::to_lowercase`) -/
@@ -110,19 +118,19 @@ structure Params where
 
 def condHolds (P : Params) (ev : PJ) (ctx : Ctx) : Cond → Bool
   | .eventMatch key pattern =>
-    let value := if key = "room_id".toList then some ctx.roomId else lookupStr ev key
+    let value := if key = keyRoomId then some ctx.roomId else lookupStr ev key
     match value with
     | none => false
     | some v =>
-      if key = "content.body".toList then wordMatchDecide P.lower pattern v
+      if key = keyContentBody then wordMatchDecide P.lower pattern v
       else valueDecide P.lower pattern v
   | .containsDisplayName =>
-    match lookupStr ev "content.body".toList with
+    match lookupStr ev keyContentBody with
     | none => false
     | some v => wordMatchDecide P.lower ctx.displayName v
   | .roomMemberCount is => compare is.prefix_ ctx.memberCount is.count
   | .senderNotificationPermission key =>
-    match ctx.powerLevels, lookupStr ev "sender".toList with
+    match ctx.powerLevels, lookupStr ev keySender with
     | some pl, some sender =>
       P.isUserId sender &&
         (match requiredLevel pl key with
@@ -150,15 +158,15 @@ def enabled : AnyRule → Bool
 def conditions : AnyRule → List Cond
   | .override_ r => r.conditions
   | .underride r => r.conditions
-  | .content r => [.eventMatch "content.body".toList r.pattern]
-  | .room r => [.eventMatch "room_id".toList r.ruleId]
-  | .sender r => [.eventMatch "sender".toList r.ruleId]
+  | .content r => [.eventMatch keyContentBody r.pattern]
+  | .room r => [.eventMatch keyRoomId r.ruleId]
+  | .sender r => [.eventMatch keySender r.ruleId]
 
 /-- The legacy mention rules, which are switched off by `m.mentions`. -/
 def legacyMention : AnyRule → Bool
-  | .override_ r => r.ruleId = ".m.rule.roomnotif".toList || r.ruleId = ".m.rule.contains_display_name".toList
-  | .underride r => r.ruleId = ".m.rule.roomnotif".toList || r.ruleId = ".m.rule.contains_display_name".toList
-  | .content r => r.ruleId = ".m.rule.contains_user_name".toList
+  | .override_ r => r.ruleId = ruleRoomNotif || r.ruleId = ruleContainsDisplayName
+  | .underride r => r.ruleId = ruleRoomNotif || r.ruleId = ruleContainsDisplayName
+  | .content r => r.ruleId = ruleContainsUserName
   | _ => false
 
 def ruleHolds (P : Params) (ev : PJ) (ctx : Ctx) (r : AnyRule) : Bool :=
@@ -169,7 +177,7 @@ def orderedRules (rs : Ruleset) : List AnyRule :=
   rs.override_.map .override_ ++ rs.content.map .content ++ rs.room.map .room ++
     rs.sender.map .sender ++ rs.underride.map .underride
 
-def sentBySelf (ev : PJ) (ctx : Ctx) : Bool := lookupStr ev "sender".toList == some ctx.userId
+def sentBySelf (ev : PJ) (ctx : Ctx) : Bool := lookupStr ev keySender == some ctx.userId
 
 /-- The rule that matches the event: the first enabled rule, in priority order, all of whose
 conditions hold; nothing for the user's own events. -/
